@@ -337,6 +337,119 @@ def selective_and_tagall(ctx):
                    model_terms_compared=2 * len(meta))
 
 
+def _same_identifier_cases():
+    """[(label, [(function, args…)], …)]: DIFFERENT definitions that share identifier, parameter names, shapes and
+    dtypes — a helper re-created with another captured constant, same-named lambdas, one explicit identifier"""
+    import pytato as pt
+
+    def make_scale(c):
+        def scale(a):
+            return a * c + 1
+        return scale
+
+    def make_pair(c):
+        def pair(a, b):
+            return {"s": a * c + b, "d": a - b * c}
+        return pair
+
+    def make_outer(c):
+        inner = make_scale(c + 10)
+
+        def outer(a):
+            return pt.trace_call(inner, a * 2) + pt.trace_call(make_scale(c + 20), a)
+        return outer
+    lam2, lam3 = (lambda a: a * 2.0), (lambda a: a * 3.0)
+
+    def f_sin(a):
+        return pt.sin(a)
+
+    def f_cos(a):
+        return pt.cos(a) + 1
+    return {
+        "closure-constant": [(make_scale(2.0), {}), (make_scale(3.0), {})],
+        "closure-constant-dict-return": [(make_pair(2.0), {}), (make_pair(5.0), {})],
+        "same-named-lambdas": [(lam2, {}), (lam3, {})],
+        "explicit-identifier": [(f_sin, {"identifier": "op"}), (f_cos, {"identifier": "op"})],
+        "nested-helpers": [(make_outer(1.0), {}), (make_outer(2.0), {})],
+        "three-definitions": [(make_scale(2.0), {}), (make_scale(3.0), {}), (make_scale(2.0), {}), (make_scale(4.0), {})],
+    }
+
+
+def same_identifier_and_repeated_runs(ctx):
+    """(a) several definitions with one identifier and equal parameter types but different bodies in ONE
+    expression, through deduplicate -> tag_all -> inline and tag_all -> inline, and evaluated without inlining:
+    values = direct application; (b) the whole pipeline run repeatedly in ONE process on rebuilt and related
+    expressions: every run behaves like the first (no state may survive a call of the API)."""
+    import inspect
+
+    import pytato as pt
+    nprng = np.random.default_rng(ctx.seed + 1212)
+    ncase = ndis = 0
+    pipelines = {
+        "dedup-tag-inline": lambda e: pt.inline_calls(pt.tag_all_calls_to_be_inlined(pt.transform.deduplicate(e))),
+        "tag-inline": lambda e: pt.inline_calls(pt.tag_all_calls_to_be_inlined(e)),
+        "dedup-only": lambda e: pt.transform.deduplicate(e),
+        "tag-only": lambda e: pt.tag_all_calls_to_be_inlined(e),
+        "dedup-twice-tag-inline-dedup": lambda e: pt.transform.deduplicate(pt.inline_calls(
+            pt.tag_all_calls_to_be_inlined(pt.transform.deduplicate(pt.transform.deduplicate(e))))),
+    }
+
+    def build(label, fns, variant):
+        x = pt.make_placeholder("x", (3,), np.float64)
+        y = pt.make_placeholder("y", (3,), np.float64)
+        direct, traced = {}, {}
+        for i, (f, kw) in enumerate(fns):
+            nargs = len(inspect.signature(f).parameters)
+            # different arguments per call site: no two equal-but-distinct calls (pytato wants those deduplicated)
+            args = [x + (variant + i), y][:nargs] if i % 2 == 0 else [y * (2 + i), x][:nargs]
+            d = f(*args)
+            t = pt.trace_call(f, *args, **kw)
+            for k, (dv, tv) in ({"": (d, t)} if isinstance(d, pt.Array) else
+                                {k: (d[k], t[k]) for k in d}).items():
+                direct[f"r{i}{k}"] = dv
+                traced[f"r{i}{k}"] = tv
+        return pt.make_dict_of_named_arrays(direct), pt.make_dict_of_named_arrays(traced)
+    inp = {"x": nprng.integers(-4, 5, size=3) / 2.0, "y": nprng.integers(-4, 5, size=3) / 2.0}
+    for label, fns in _same_identifier_cases().items():
+        for run_no in range(3):                      # (b): the same program again, and a related one
+            variant = 0 if run_no < 2 else 1
+            try:
+                dexpr, texpr = build(label, fns, variant)
+                ref = evaluate(dexpr, inp)
+            except Exception as e:   # noqa: BLE001
+                ndis += 1
+                ctx.violation(f"calls:trace_call-raises:{type(e).__name__}", f"{label}: {e}"[:300], {"family": label})
+                continue
+            for pname, pipe in pipelines.items():
+                if label == "three-definitions" and not pname.startswith("dedup"):
+                    continue    # contains two equal definitions as distinct objects: pytato wants deduplicate first
+                ncase += 1
+                rep = {"family": label, "pipeline": pname, "run": run_no + 1}
+                first = "" if run_no == 0 else f" on run {run_no + 1} in one process (run 1 was fine)"
+                try:
+                    out = pipe(texpr)
+                    got = evaluate(out, inp)
+                except Exception as e:   # noqa: BLE001
+                    ndis += 1
+                    sig = (f"calls:pipeline-raises:{type(e).__name__}" if run_no == 0
+                           else f"calls:repeated-run-raises:{type(e).__name__}")
+                    ctx.violation(sig, f"{label} through {pname}{first}: {type(e).__name__}: {e}"[:400], rep)
+                    continue
+                if any(not close(got[k], ref[k], exact=False) for k in ref):
+                    ndis += 1
+                    bad = sorted(k for k in ref if not close(got[k], ref[k], exact=False))
+                    ctx.violation("calls:same-identifier-definitions-confused" if run_no == 0
+                                  else "calls:repeated-run-value-differs",
+                                  f"{label} through {pname}{first}: results {bad} differ from applying the functions "
+                                  f"directly (definitions that share identifier and parameter types are different functions)",
+                                  rep)
+                elif "inline" in pname and _count_calls(out):
+                    ndis += 1
+                    ctx.violation("calls:not-call-free-after-inlining", f"{label} through {pname}{first}", rep)
+    ctx.note_batch("same-identifier-definitions-and-repeated-runs", ncase, ndis, exhaustive=True,
+                   families=sorted(_same_identifier_cases()), pipelines=sorted(pipelines), runs_per_family=3)
+
+
 def run_struct(ctx):
     ctx.assumptions += [
         "C12 model terms are tree unfoldings; array operations are opaque (`op` + fingerprint of all non-child data); "
@@ -347,3 +460,4 @@ def run_struct(ctx):
     ]
     trace_structure(ctx)
     selective_and_tagall(ctx)
+    same_identifier_and_repeated_runs(ctx)
